@@ -19,16 +19,18 @@ class C16(Property):
         "cut_shape (adjusted path = first k+1 natural points ++ [p_k + dir*(L - len_k)], k = last index with length < L, lastValid_spec), "
         "dist_zero_when_nothing_below, dist_natural_when_near/none, natural_dist + natTotal_eq_fold (natural distance = fold of segment "
         "lengths), single_point_keeps, equal_tail_keeps_natural/equal_tail_dist, lengths_path_aligned, lengths_head_zero. "
-        "Exact-arithmetic part (Props/C16Laws.lean, laws as explicit hypotheses, instantiated by core Rat): lengths_monotone, "
-        "simplify_preserves_length (telescoping). Model tied to the code bit-for-bit on every run.")
+        "Exact-arithmetic part (laws as the explicit hypothesis structure MonoLaws, shown satisfiable by monoLaws_int): lengths_monotone. "
+        "Model tied to the code bit-for-bit on every run; the remaining clauses (cut point on its segment, extension collinear, Catmull "
+        "simplification preserving the length, IEEE monotonicity/finiteness) are evaluated on the real code by an oracle written from the property text.")
     technique = "Lean 4 proof (case analysis of the mirrored control flow, generic arithmetic) + bit-exact differential correspondence"
     required_theorems = ["calculateLength_some", "calculateLength_total", "lengths_head_zero", "dist_exact", "cut_shape",
                          "lastValid_spec", "dist_zero_when_nothing_below", "dist_natural_when_near", "dist_natural_when_none",
                          "natural_dist", "natTotal_eq_fold", "single_point_keeps", "equal_tail_keeps_natural", "equal_tail_dist",
-                         "lengths_path_aligned", "new_is_calculateLength", "new_lengths_head_zero"]
+                         "lengths_path_aligned", "new_is_calculateLength", "new_lengths_head_zero", "lengths_monotone", "monoLaws_int",
+                         "cutIdx_pos_of_pos", "lastValid_le", "lastValid_eq_zero_iff"]
     partial_theorems = {
-        "lengths_monotone": "proved in exact arithmetic only (hypotheses: segment lengths >= 0, a <= a + x for x >= 0); IEEE monotonicity 'beyond 1e-5' and finiteness are tested by the harness oracle, not proved",
-        "simplify_preserves_length": "telescoping identity of the osu!-mode Catmull simplification proved under commutative-group laws of + (exact arithmetic); in IEEE the surplus is accumulated with rounding - tested to 1e-5 relative",
+        "lengths_monotone": "proved in exact arithmetic only (hypotheses MonoLaws: segment lengths >= 0, a <= a + x for x >= 0; instantiated on Int); IEEE monotonicity 'beyond 1e-5' and finiteness are tested by the harness oracle, not proved (finiteness fails: F11, F13)",
+        "catmull_simplify_preserves_length": "NOT proved in Lean (telescoping identity of the osu!-mode simplification); tested: natural dist in osu! mode vs the unsimplified curve's dist, 1e-5 relative",
         "cut_on_segment / extension_collinear": "not proved in Lean (needs |dir| = 1, i.e. sqrt laws): covered by the harness oracle (end point on the segment's line, at distance L - len_k from p_k) with float slack",
         "dist_exact": "the property says 'exactly L' for every L > 0; the code keeps the natural length when |natural - L| < f64::EPSILON (hypothesis `near = false`); the oracle accepts that case explicitly (reported as OK near-natural)",
     }
